@@ -173,11 +173,11 @@ struct ConnectRefused : Scenario
 // an established connection with reads / writes / waits outstanding on both ends, optionally over a lossy route
 struct Established : Scenario
 {
-	int kind; // 0 read pending (no data), 1 blocked write, 2 wait-for-read pending, 3 bulk transfer (loss-free), 4 bulk transfer over a lossy route
+	int kind; // 0 read pending (no data), 1 blocked write, 2 wait-for-read pending, 3 bulk transfer (loss-free), 4 bulk transfer over a lossy route, 5 bulk transfer both ways over a lossy route (each end reads and writes)
 	std::string nm;
 	std::unique_ptr<ip::tcp::socket> cli, srv; std::unique_ptr<ip::tcp::acceptor> acc;
-	std::vector<char> rb, wb, rb2; int64_t sent = 0, total = 0; std::string got; bool accept_done = false;
-	Established(int k) : kind(k) { static const char* n[] = { "tcp-read-pending", "tcp-write-blocked", "tcp-wait-read-pending", "tcp-bulk-lossfree", "tcp-bulk-lossy" }; nm = n[k]; }
+	std::vector<char> rb, wb, rb2, rbc; int64_t sent = 0, total = 0, sent_s = 0; std::string got, got_c; bool accept_done = false;
+	Established(int k) : kind(k) { static const char* n[] = { "tcp-read-pending", "tcp-write-blocked", "tcp-wait-read-pending", "tcp-bulk-lossfree", "tcp-bulk-lossy", "tcp-duplex-lossy" }; nm = n[k]; }
 	const char* name() const override { return nm.c_str(); }
 	void reader()
 	{
@@ -189,6 +189,16 @@ struct Established : Scenario
 		if (dead[0] || sent >= total) return;
 		cli->async_write_some(asio::buffer(wb.data() + sent, size_t(total - sent)), h_ec_n(rec("C.write", 0), [this](error_code const& ec, std::size_t n) { if (ec) return; sent += int64_t(n); writer(); }));
 	}
+	void reader_c()
+	{
+		if (dead[0]) return;
+		cli->async_read_some(asio::buffer(rbc), h_ec_n(rec("C.read", 0), [this](error_code const& ec, std::size_t n) { if (ec) return; got_c.append(rbc.data(), n); reader_c(); }));
+	}
+	void writer_s()
+	{
+		if (dead[1] || sent_s >= total) return;
+		srv->async_write_some(asio::buffer(wb.data() + sent_s, size_t(total - sent_s)), h_ec_n(rec("S.write", 1), [this](error_code const& ec, std::size_t n) { if (ec) return; sent_s += int64_t(n); writer_s(); }));
+	}
 	void go()
 	{
 		if (dead[0] || dead[1] || !srv->is_open() || !cli->is_open()) return; // an intervention removed or closed an end before the connection was up
@@ -196,12 +206,13 @@ struct Established : Scenario
 			case 0: srv->async_read_some(asio::buffer(rb), h_ec_n(rec("S.read", 1))); break;
 			case 1: total = 9000; writer(); break; // first write fills the window, the second one blocks until ACKs arrive
 			case 2: srv->async_wait(ip::tcp::socket::wait_read, h_ec(rec("S.wait_read", 1))); break;
+			case 5: total = 30000; rbc.resize(700); reader(); writer(); reader_c(); writer_s(); break;
 			default: total = 30000; reader(); writer(); break;
 		}
 	}
 	void build() override
 	{
-		if (kind == 4) basic_world(4000, 200000); else basic_world();
+		if (kind >= 4) basic_world(4000, 200000); else basic_world();
 		asio::io_context& a = node("10.0.0.1"); asio::io_context& b = node("10.0.1.1");
 		acc.reset(new ip::tcp::acceptor(b)); acc->open(ip::tcp::v4()); acc->bind(ip::tcp::endpoint(addr("10.0.1.1"), 6000)); acc->listen();
 		cli.reset(new ip::tcp::socket(a)); srv.reset(new ip::tcp::socket(b)); rb.resize(1000); wb.resize(30000); for (size_t i = 0; i < wb.size(); ++i) wb[i] = char(i * 11 + 1);
@@ -298,7 +309,7 @@ std::vector<std::function<std::unique_ptr<Scenario>()>> scenario_table()
 	t.push_back([]() { return std::unique_ptr<Scenario>(new TimerWait); });
 	for (int o = 0; o < 3; ++o) for (int wn = 0; wn < 3; ++wn) t.push_back([o, wn]() { return std::unique_ptr<Scenario>(new ConnectAccept(o, wn)); });
 	t.push_back([]() { return std::unique_ptr<Scenario>(new ConnectRefused); });
-	for (int k = 0; k < 5; ++k) t.push_back([k]() { return std::unique_ptr<Scenario>(new Established(k)); });
+	for (int k = 0; k < 6; ++k) t.push_back([k]() { return std::unique_ptr<Scenario>(new Established(k)); });
 	for (int k = 0; k < 4; ++k) t.push_back([k]() { return std::unique_ptr<Scenario>(new UdpOps(k)); });
 	for (int k = 0; k < 3; ++k) t.push_back([k]() { return std::unique_ptr<Scenario>(new Resolve(k)); });
 	return t;
@@ -323,7 +334,7 @@ RunResult execute(std::function<std::unique_ptr<Scenario>()> const& mk, std::vec
 			else if (size_t(a) < S->actions.size()) { applied.push_back(fmt("@%lld[boundary %d] %s", (long long)now_ns(), boundary, S->actions[size_t(a)].name.c_str())); S->actions[size_t(a)].fn(); }
 		}
 	};
-	if (use_hook) Hook::set([&](int kind) { if (kind != 0) return; ++boundary; if (++steps > 200000) throw abort_execution{ "step budget" }; apply_due(); });
+	if (use_hook) Hook::set([&](int) { /* a boundary is the point after a handler ran, or the top of a round (expired timers have posted their handlers, none of them has run yet) */ ++boundary; if (++steps > 200000) throw abort_execution{ "step budget" }; apply_due(); });
 	apply_due(); // boundary 0: before run()
 	bool threw_user = false; std::string other_exc;
 	for (int round = 0; round < 3; ++round) {
